@@ -167,7 +167,7 @@ def drive_src_random(rng: random.Random, tid: int, default_fh: bool = True, leav
     return tr
 
 
-def drive_dst_random(rng: random.Random, tid: int, default_fh: bool = True, **fixed) -> dict:
+def drive_dst_random(rng: random.Random, tid: int, default_fh: bool = True, leave: float = 0.07, **fixed) -> dict:
     """A lone DestHandler fed arbitrary well-formed PDUs: Metadata, File Data (any offsets, overlaps, beyond EOF,
     bit flips), EOF (sizes, checksums, cancel), ACK, wrong kinds/ids/directions, clock jumps, cancels, write rejections."""
     cfg = random_cfg(rng, default_fh, **fixed)
@@ -196,7 +196,7 @@ def drive_dst_random(rng: random.Random, tid: int, default_fh: bool = True, **fi
 
     for _ in range(rng.randint(3, 34)):
         r = rng.random()
-        take = None if rng.random() < 0.93 else rng.choice([0, 1])
+        take = None if rng.random() >= leave else rng.choice([0, 1])
         h = hdr()
         if rng.random() < 0.05:
             k = rng.choice(["dir", "sv", "dv", "qv"])
@@ -254,8 +254,8 @@ def src_random(tid: int, seed: int, default_fh: bool = True, leave: float = 0.07
     return drive_src_random(random.Random(seed), tid, default_fh, leave, filechange, **fixed)
 
 
-def dst_random(tid: int, seed: int, default_fh: bool = True, **fixed) -> dict:
-    return drive_dst_random(random.Random(seed), tid, default_fh, **fixed)
+def dst_random(tid: int, seed: int, default_fh: bool = True, leave: float = 0.07, **fixed) -> dict:
+    return drive_dst_random(random.Random(seed), tid, default_fh, leave, **fixed)
 
 
 def src_nominal(tid: int, seed: int) -> dict:
